@@ -17,7 +17,7 @@ CLAIMS = {
     'C03': (TECH_RULES, '§4 C03',
             'Decides, for all paths of the code: no plaintext leaves a decrypt site before its tag compared equal (both decrypt sites), '
             'the normal reader cannot reach the unauthenticated decrypt functions (direct-caller allowlists), every cipher of the layer '
-            'is keyed by build_nonce(prefix, chunk counter), the footer is read through the authenticated layer stack, chunk loads are complete reads and the end-of-data position is right for a full last chunk (a genuine defect, repaired in /repo). Does not '
+            'is keyed by build_nonce(prefix, chunk counter), the footer is read through the authenticated layer stack, chunk loads are complete reads and the end-of-data position is right for a full last chunk (a genuine defect, repaired in /repo); a tag mismatch is an Err of the loader, never an end-of-data result; key and nonce prefix of every archive are drawn from a generator seeded from the OS in that call. Does not '
             'decide that the tag arithmetic is the standard one (numeric).'),
     'C04': (TECH_RULES, '§4 C04',
             'Decides, for all paths: unauthenticated chunk loads sit only under the DataEvenUnauthenticated arm of the mode switch; the default '
@@ -28,12 +28,12 @@ CLAIMS = {
             'Decides provenance and shape for all paths: key/nonce of EncryptionConfig and the ephemeral scalar must-derive from an OS-seeded '
             'ChaCha20Rng; no seeded generator constructor exists in the library crates; every byte transfer of the encryption writer to its inner '
             'writer is an encrypted buffer or a tag and the layer is stacked whenever ENCRYPT is enabled; the reader accepts a key only from the '
-            'tag-verified Ok(Some) payload of retrieve_key, tries every candidate key, and fails otherwise. Absence of plaintext in the bytes and '
+            'tag-verified Ok(Some) payload of retrieve_key, tries every candidate key, and fails otherwise; a wrapped key is stored for every element of the recipients argument. Absence of plaintext in the bytes and '
             'uniqueness of OS randomness are not decided.'),
     'C12': (TECH_RULES, '§4 C12',
             'Decides on all (constant-flag-sensitive) paths of helpers::linear_extract: Ok(()) only through the EndOfArchiveData arm and parse errors '
             'propagate; content blocks are looked up by their own id, routed to export[name] or drained, always through take(src, length of this block); '
-            'names are registered only if chosen and unregistered at EndOfFile; the loop starts after a rewind. Byte equality with get_file is not decided.'),
+            'names are registered only if chosen and unregistered at EndOfFile; the loop starts after a rewind; the io::Result of every copy decides the outcome (never reduced to a flag). Byte equality with get_file is not decided.'),
     'C16': (TECH_RULES + ' + filesystem-sink census', '§4 C16',
             "Decides for all paths of mlar: a '..' component refuses the member, only Normal components are appended to output_dir, file creation is "
             'edge-dominated by the canonical-prefix test on the parent of the filtered path, callers pass a canonicalized directory and reuse the vetted '
@@ -52,7 +52,7 @@ CLAIMS = {
             'Decides for all paths of the C entry points: a null test dominates every use of each raw-pointer parameter and of each handle loaded through one, '
             'and its null edge cannot report Success; Box::from_raw is paired with Box::leak on every normal exit unless the handle was released; the Err '
             'outcome of every fallible library call cannot reach Success; callback adapters return Ok only on status 0 with the reported count; extraction '
-            'registers only caller-initialised writers and goes through linear_extract. Byte equality with the Rust interface is not decided.'),
+            'registers only caller-initialised writers, each built entirely (callbacks and context) from the FileWriter its per-file callback filled, and goes through linear_extract. Byte equality with the Rust interface is not decided.'),
     'C09': (TECH_RULES + ' with interprocedural effect / refusal summaries', '§4 C09',
             'Decides for all paths of the ArchiveWriter call tree: no refusal knowable before writing (duplicate / over-long name, wrong state, unknown id) is '
             'reachable after an effect on the writer state or the destination (fixpoint summaries; structural discharges for contradicted arms and already-tested '
@@ -67,11 +67,11 @@ CLAIMS = {
             'Decides over every raw Write::write / Read::read call of the workspace: accepted and read counts are returned or accumulated, never dropped or '
             'replaced by the requested length; no raw write outside pass-through `impl Write::write` bodies (all other transfers use the looping forms); '
             'chunks handed to the cipher are complete reads on a bounded take; buffer contents are consumed only up to the count read; decoder-produced '
-            'zero counts must not be returned mid-stream (the genuine defect found was repaired in /repo); a short count is never taken for the end of a source and destination error kinds survive on the write path. Equality of the resulting archives is not decided.'),
+            'zero counts must not be returned mid-stream (the genuine defect found was repaired in /repo); a short count is never taken for the end of a source, destination error kinds survive on the write path and an error kept for later is never an Interrupted one. Equality of the resulting archives is not decided.'),
     'C02': (TECH_CENSUS + ' + MIR path rules on convert_to_archive', '§4 C02',
             'Decides: no unreviewed, input-tainted panic site is reachable from the fail-safe entry points (interval / guard / length-fact discharge, reviewed '
             'table); a file is marked done only on the hash-equal edge and the running hash covers exactly the appended slices; every Ok result follows a '
-            'successful finalize and the clean-up loop ends every unfinished file; EndOfOriginalArchiveData only under the end marker, UnfinishedFiles always '
+            'successful finalize and the clean-up loop ends every unfinished file and names each of them; EndOfOriginalArchiveData only under the end marker, UnfinishedFiles always '
             'reported, every inconsistency leaves the block loop. That recovered content is a prefix of the original, and termination, are not decided.'),
     'C08': (TECH_CENSUS + ', allocation-size and recursion rules', '§3, §4 C08',
             'Decides for the crash / allocation / recursion clauses: every MIR assert and panicking API call reachable (over-approximate call graph) from the '
@@ -81,12 +81,12 @@ CLAIMS = {
             'Loop termination, wall time and peak memory as numbers are not decided.'),
     'C18': (TECH_CENSUS, '§4 C18',
             'Decides totality (no crash) of the five public key parsers: all index / slice / copy sites reachable from them are discharged by the dominating '
-            'length fact or fixed-size types; dependencies are trusted not to panic. Round-trip and curve conversion are numeric and not decided.'),
+            'length fact or fixed-size types; dependencies are trusted not to panic. Also decides four refusal clauses (key list keeps every block in order; a foreign PEM label, an unknown algorithm OID, and bytes left inside a SEQUENCE each end in an error). Round-trip and curve conversion are numeric and not decided.'),
     'C10': (TECH_RULES + ' + borrow-checker compile-fail witnesses (thorough)', '§4 C10',
             'Decides three structural conditions that are necessary for history independence, not the behaviour itself: every operation reading through the '
             'shared source first positions it absolutely at the offset of the requested entry and propagates a failed seek; seek(Start) of each layer '
             'rewrites every position-dependent field (frozen, reviewed field lists) with a decompressor / chunk loaded in the same call; an open '
-            'ArchiveFile exclusively borrows the reader (compile-fail witnesses with compiling twins). Equality of returned bytes along a history is not decided.'),
+            'ArchiveFile exclusively borrows the reader (compile-fail witnesses with compiling twins); the per-file reader enters its terminal state only at the EndOfFile block (not on a zero-byte transfer). Equality of returned bytes along a history is not decided.'),
     'C15': (TECH_GROWTH, '§4 C15',
             'Decides that no container on a streaming path (writer data methods, layer Read/Write impls, repair, linear extraction) grows with the number '
             'of bytes streamed: every growth or sized-allocation site is either bounded by a named constant (interval analysis incl. take() limits) or '
